@@ -615,9 +615,36 @@ class RefStore(object):
 # --------------------------------------------------------------------------
 # id generators
 # --------------------------------------------------------------------------
+def preload(ref, rows, pairs):
+    '''
+    Initial state of a reference store that was *loaded*: rows (with stored referential values, which are
+    dropped) and the link pairs the join by definition gives.  Handles are 'p<row>'.
+    '''
+    sch = ref.schema
+    for r in rows:
+        h = 'p%d' % r['row']
+        row = Row(h, sch.cls(r['kind'])['kind'])
+        refs = sch.referential(r['kind'])
+        for name, ty in sch.attrs(r['kind']):
+            if name in refs:
+                continue
+            v = r['values'][name]
+            if ty.upper() == 'REAL' and v is not None:
+                v = float('%f' % v)
+            row.values[name] = v
+        ref.rows[h] = row
+        ref.pool[row.kind.upper()].append(h)
+    for i, ps in enumerate(pairs):
+        for s, t in sorted(ps):
+            ref.pairs[i].append(('p%d' % s, 'p%d' % t))
+
+
 class RefIntegerGen(object):
     def __init__(self):
         self.cur = 1
+
+    def skip(self, n):
+        self.cur += n
 
     def peek(self):
         return self.cur
@@ -633,6 +660,9 @@ class RefSequenceGen(object):
     def __init__(self, seq):
         self.seq = seq
         self.k = 0
+
+    def skip(self, n):
+        self.k += n
 
     def peek(self):
         return self.seq(self.k)
